@@ -59,7 +59,10 @@ Event ==
          [] L.e = "exit"       -> (IF pc[L.c] = "exiting" THEN Same ELSE ExitCtx(L.c)) /\ UNCHANGED <<early, panics>>
          [] L.e = "unregister" -> Unregister(L.c) /\ UNCHANGED <<early, panics>>
          [] L.e = "block"      -> BLock /\ sent + 1 = L.b /\ UNCHANGED <<early, panics>>
-         [] L.e = "bspawn"     -> BSpawn /\ requests = ToSet(L.targets) /\ UNCHANGED <<early, panics>>
+         \* L.ok = FALSE: the process died while Send was still in its loop, only some spawn lines were written
+         [] L.e = "bspawn"     -> /\ BSpawn
+                                  /\ IF L.ok THEN requests = ToSet(L.targets) ELSE ToSet(L.targets) \subseteq requests
+                                  /\ UNCHANGED <<early, panics>>
          [] L.e = "run"        -> Run(L.c, L.b) /\ UNCHANGED <<early, panics>>
          [] L.e = "abandon"    -> Abandon(L.c, L.b) /\ UNCHANGED <<early, panics>>
          [] L.e = "panic"      -> /\ panicked \/ UnloggedClosePanics
